@@ -21,6 +21,7 @@ import itertools
 import math
 
 from mc import alpha
+from mc import pasts
 from mc.env import guard
 from tracklib.core.track import Track
 from tracklib.core.obs import Obs
@@ -126,6 +127,7 @@ _OB_ALL.update({
 })
 OBLIGATIONS = {"all": dict(_OB_ALL, **{"depth/4": "a defined depth-3 bracketing carrying one more unary operator",
                                        "long_track": "a function evaluated on a track of 13, 17 or 40 observations",
+                                       "track_with_a_past": "expressions evaluated on a track that had been copied, extracted, sorted, resampled or concatenated first",
                                        "named_numbers": "an expression with named numbers (operate(text, {name: value})) evaluated several times with different values",
                                        "rot/nan-first": "an order-free aggregate over values whose first one is NaN, compared with its rotations"}),
                "quick": {}, "thorough": {}}
@@ -1201,6 +1203,69 @@ def run_externals(variant, ctx):
     ctx.sample({"named_numbers": list(EXT_TEMPLATES), "values": EXT_VALUES, "sequences": "every single value, every ordered pair, one run of four"})
 
 
+# ---- expressions on a track with a past (mc/pasts.py): the values are judged against the coordinates the track has NOW -----
+PAST_EXPRS = {
+    "x+y*2": (None, lambda X, Y, Z, A: [x + y * 2 for x, y in zip(X, Y)]),
+    "(x-y)*(z+1)": (None, lambda X, Y, Z, A: [(x - y) * (z + 1) for x, y, z in zip(X, Y, Z)]),
+    "-x+idx": (None, lambda X, Y, Z, A: [-x + i for i, x in enumerate(X)]),
+    "a=x+1": ("a", lambda X, Y, Z, A: [x + 1 for x in X]),
+    "b=a*y-z": ("b", lambda X, Y, Z, A: [a * y - z for a, y, z in zip(A, Y, Z)]),
+    "SUM{a}+x": (None, lambda X, Y, Z, A: [sum(A) + x for x in X]),
+}
+PAST_LIST = [p_ for p_ in pasts.PASTS if p_ not in pasts.LEFTOVER_COLUMNS]    # those two are the C01 known finding
+
+
+def _past_root(variant, n):
+    def mk():
+        t = Track()
+        t0 = alpha.t0(variant)
+        for i in range(n):
+            x, y = alpha.xy(variant, i + 1.0, 2.0 * (i % 3))
+            t.addObs(Obs(ENUCoords(x, y, 5.0 - i), alpha.obstime(t0 + 3 * i)))
+        return t
+    return mk
+
+
+def check_past_expr(variant, n, past, ctx):
+    case = {"kind": "pastexpr", "variant": variant, "N": n, "past": past}
+    st, t = guard(pasts.make, _past_root(variant, n), past)
+    if st != "ok" or t.size() == 0:
+        ctx.undef()
+        ctx.case(False)
+        return
+    ctx.case(True)
+    ctx.oblige("track_with_a_past")
+    A = None
+    for text, (lhs, fn) in PAST_EXPRS.items():
+        X, Y, Z = list(t.getX()), list(t.getY()), list(t.getZ())
+        before = list(t.getListAnalyticalFeatures())
+        if ("a" in text.split("=")[-1]) and A is None:
+            continue
+        exp = fn(X, Y, Z, A)
+        st, got = guard(t.operate, text)
+        if st != "ok":
+            ctx.violation("expression-on-a-track-with-a-past/%s" % ("does-not-return" if st == "hang" else "raises"), dict(case, expr=text), got)
+            return
+        if lhs is not None:
+            st, got = guard(t.getAnalyticalFeature, lhs)
+        vals = _vec(got, t.size()) if st == "ok" else None
+        if vals is None or not vclose(vals, exp):
+            ctx.violation("expression-on-a-track-with-a-past/%s/values-differ" % past, dict(case, expr=text),
+                          {"expected": exp[:6], "got": vals[:6] if vals else repr(got)[:80]})
+            return
+        after = list(t.getListAnalyticalFeatures())
+        if after != before + ([lhs] if lhs and lhs not in before else []):
+            ctx.violation("expression-on-a-track-with-a-past/%s/listed-features-changed" % past, dict(case, expr=text),
+                          {"before": before, "after": after})
+            return
+        if (list(t.getX()), list(t.getY()), list(t.getZ())) != (X, Y, Z):
+            ctx.violation("expression-on-a-track-with-a-past/%s/coordinates-changed" % past, dict(case, expr=text), None)
+            return
+        if lhs == "a":
+            A = exp
+    ctx.outcome(("pastexpr", past, n))
+
+
 def defined_size(bench, variant, tree):
     for n in reversed(SIZES):
         try:
@@ -1216,6 +1281,8 @@ def replay(case, ctx):
         return check_rotation(case["variant"], case["fn"], case["vec"], ctx)
     if case.get("kind") == "long":
         return check_long(case["variant"], case["fn"], case["pattern"], case["N"], ctx)
+    if case.get("kind") == "pastexpr":
+        return check_past_expr(case["variant"], case["N"], case["past"], ctx)
     if case.get("kind") == "ext":
         return check_externals(case["variant"], case["text"], case["seq"], case["fresh"], ctx)
     if case["kind"] == "setup":
@@ -1334,6 +1401,7 @@ def _quick_shards(variant, with_d2=True):
         sh.append({"kind": "rot", "variant": variant, "N": 4, "fn": fn})
     sh.append({"kind": "long", "variant": variant, "N": 4})
     sh.append({"kind": "ext", "variant": variant, "N": 4})
+    sh.append({"kind": "pastexpr", "variant": variant, "N": 4})
     if with_d2:
         sh += _d2_shards("quick", variant)
     for k in range(4):
@@ -1397,6 +1465,12 @@ def run_shard(shard, ctx):
         return
     if kind_ == "ext":
         return run_externals(shard["variant"], ctx)
+    if kind_ == "pastexpr":
+        for n_ in (1, 2, 4, 6):
+            for past in PAST_LIST:
+                check_past_expr(shard["variant"], n_, past, ctx)
+        ctx.sample({"tracks_with_a_past": PAST_LIST, "sizes": [1, 2, 4, 6], "expressions": list(PAST_EXPRS)})
+        return
     if kind_ == "long":
         for fn in UN_ALL:
             for pattern in sorted(LONG_PATTERNS):
